@@ -77,6 +77,11 @@ public:
    * @brief From AbstractParametrizable interface
    */
   void fireParameterChanged(const ParameterList& parameters);
+
+  /**
+   * @brief The row simplexes own the parameters under "<prefix><row>.": they follow the namespace.
+   */
+  void setNamespace(const std::string& prefix);
 };
 } // end of namespace bpp
 #endif // BPP_NUMERIC_HMM_FULLHMMTRANSITIONMATRIX_H
